@@ -3,7 +3,7 @@
 # (each a git worktree of /repo HEAD plus a git worktree of /verif HEAD with its own build directory, all under /tmp/reseed), so /repo itself is
 # never touched.  For each seed the checks that detected it before (or its own property's check) are run; results go to /tmp/reseed/results/<id>.json
 # and are merged into seeded/<id>/meta.json by tools/reseed_merge.py.  Scratch is removed at the end.
-W=${1:-4}; ROOT=/tmp/reseed; rm -rf $ROOT; mkdir -p $ROOT/results
+W=${1:-4}; ROOT=${RESEED_ROOT:-/tmp/reseed}; rm -rf $ROOT; mkdir -p $ROOT/results
 ls /verif/seeded | grep -E "${2:-.}" > $ROOT/all.txt
 for i in $(seq 0 $((W-1))); do
   git -C /repo worktree add --detach $ROOT/repo$i HEAD >/dev/null 2>&1
